@@ -262,15 +262,23 @@ def scratch():
     return d
 
 
-def cli(args, cwd, env=None, timeout=60):
-    """run the CLI binary built from the tree"""
+def cli(args, cwd, env=None, timeout=60, stdout=None):
+    """run the CLI binary built from the tree; stdout: None (captured), a path to open for writing (e.g. /dev/full) or "closed" """
     e = dict(os.environ, NO_COLOR="1")
     if env:
         e.update(env)
     try:
-        p = subprocess.run([os.path.join(CACHE, "gontainer")] + args, cwd=cwd, env=e, timeout=timeout,
-                           stdout=subprocess.PIPE, stderr=subprocess.PIPE)
-        return p.returncode, p.stdout.decode("utf-8", "replace"), p.stderr.decode("utf-8", "replace")
+        if stdout is None:
+            p = subprocess.run([os.path.join(CACHE, "gontainer")] + args, cwd=cwd, env=e, timeout=timeout,
+                               stdout=subprocess.PIPE, stderr=subprocess.PIPE)
+            return p.returncode, p.stdout.decode("utf-8", "replace"), p.stderr.decode("utf-8", "replace")
+        if stdout == "closed":
+            p = subprocess.run(["/bin/sh", "-c", 'exec "$0" "$@" >&-', os.path.join(CACHE, "gontainer")] + args, cwd=cwd, env=e,
+                               timeout=timeout, stderr=subprocess.PIPE)
+        else:
+            with open(stdout, "wb") as f:
+                p = subprocess.run([os.path.join(CACHE, "gontainer")] + args, cwd=cwd, env=e, timeout=timeout, stdout=f, stderr=subprocess.PIPE)
+        return p.returncode, "", p.stderr.decode("utf-8", "replace")
     except subprocess.TimeoutExpired:
         return -9, "", "timeout"
 
